@@ -1,0 +1,37 @@
+//go:build verif
+
+package websocket
+
+import (
+	"crypto/rand"
+	"io"
+)
+
+// Verification hooks (build tag "verif"). They add observation and scheduling
+// points only; with the tag off none of this is compiled in.
+
+// verifMaskRandWasCrypto records, at package initialisation (before any
+// swap), whether mask keys are drawn from crypto/rand.
+var verifMaskRandWasCrypto = maskRand == rand.Reader
+
+// VerifMaskRandIsCryptoRand reports whether the package's mask key source was
+// crypto/rand.Reader at initialisation.
+func VerifMaskRandIsCryptoRand() bool { return verifMaskRandWasCrypto }
+
+// VerifSetMaskRand replaces the mask key source and returns a function that
+// restores the previous one.
+func VerifSetMaskRand(r io.Reader) (restore func()) {
+	old := maskRand
+	maskRand = r
+	return func() { maskRand = old }
+}
+
+// VerifGateFn, when non-nil, is called at the named synchronisation points of
+// the write path; a blocking implementation acts as a scheduler gate.
+var VerifGateFn func(c *Conn, point string)
+
+func verifGate(c *Conn, point string) {
+	if f := VerifGateFn; f != nil {
+		f(c, point)
+	}
+}
